@@ -54,6 +54,8 @@ class StoreEngine(Engine):
                 at = o.get('at') or []
                 if len(at) > 2 and at[2] in ('after', 'interrupt'):
                     fired['crash_' + at[2]] = fired.get('crash_' + at[2], 0) + 1
+                    if at[0] == 'write':
+                        fired['crash_interrupt_inside_write'] = fired.get('crash_interrupt_inside_write', 0) + 1
                 if o.get('torn'):
                     fired['torn_write'] = fired.get('torn_write', 0) + 1
             for f in o.get('fired', []):
